@@ -2932,14 +2932,14 @@ impl<'store> QueryIter<'store> {
                 Box::new(FromHandles::new(handles.clone().into_iter(), store).data_as_metadata())
             }
             Some(&Constraint::Annotation(id, SelectionQualifier::Normal, _, None)) => {
-                Box::new(store.annotation(id).or_fail()?.data())
+                unique_data(store.annotation(id).or_fail()?.data())
             }
             Some(&Constraint::Annotation(id, SelectionQualifier::Metadata, _, None)) => {
                 Box::new(store.annotation(id).or_fail()?.data_as_metadata())
             }
             Some(&Constraint::AnnotationVariable(varname, SelectionQualifier::Normal, _, None)) => {
                 let annotation = self.resolve_annotationvar(varname)?;
-                Box::new(annotation.data())
+                unique_data(annotation.data())
             }
             Some(&Constraint::AnnotationVariable(
                 varname,
@@ -4260,6 +4260,22 @@ impl<'store> IntoIterator for QueryResultItems<'store> {
 }
 
 // Helper structs and functions
+
+/// The data of an annotation, each item once (an annotation can carry the same data twice)
+fn unique_data<'store>(
+    iter: impl Iterator<Item = ResultItem<'store, AnnotationData>> + 'store,
+) -> Box<dyn Iterator<Item = ResultItem<'store, AnnotationData>> + 'store> {
+    let mut seen: Vec<(AnnotationDataSetHandle, AnnotationDataHandle)> = Vec::new();
+    Box::new(iter.filter(move |data| {
+        let handle = data.fullhandle();
+        if seen.contains(&handle) {
+            false
+        } else {
+            seen.push(handle);
+            true
+        }
+    }))
+}
 
 #[derive(Debug, Clone, Copy, PartialEq, Eq)]
 enum ArgType {
